@@ -21,11 +21,11 @@ type c15Cell struct {
 	Mode     string `json:"mode"`     // seq | conc
 	Deleters string `json:"deleters"` // SM | SY | SM+SY | SM+faulty | OF
 	NKeys    int    `json:"nkeys"`
-	Repeat   bool   `json:"repeat"`  // every AddLabels call is issued twice
+	Repeat   bool   `json:"repeat"`          // every AddLabels call is issued twice
 	Cumul    bool   `json:"cumul,omitempty"` // labels are added with a growing list: AddLabels(k,l1); AddLabels(k,l1,l2); ...
-	Reverse  bool   `json:"reverse"` // registration order reversed
-	Names    int    `json:"names"`   // cache names (2: keys alternate between names, no fault injection)
-	Shard    int    `json:"shard"`   // incidence structures are split over NShards cells
+	Reverse  bool   `json:"reverse"`         // registration order reversed
+	Names    int    `json:"names"`           // cache names (2: keys alternate between names, no fault injection)
+	Shard    int    `json:"shard"`           // incidence structures are split over NShards cells
 	NShards  int    `json:"nshards"`
 	Prog     int    `json:"prog,omitempty"` // conc: program index
 	Fail     int    `json:"fail,omitempty"` // conc: 1+index of the Delete call that fails during the concurrent phase (0 = none)
@@ -60,7 +60,7 @@ func c15Cells(tier string) []Cell {
 	}
 
 	for p := range c15Progs {
-		for _, d := range []string{"SM", "SY"} {
+		for _, d := range []string{"SM", "SY", "OF"} {
 			for fail := 0; fail <= 2; fail++ {
 				cells = append(cells, Cell{ID: c15Cell{Mode: "conc", Deleters: d, Prog: p, Fail: fail}.id()})
 			}
@@ -527,8 +527,11 @@ func c15Conc(cc c15Cell, env *Env) CellResult {
 	prog := c15Progs[cc.Prog]
 	kind := "ShardedMap"
 
-	if cc.Deleters == "SY" {
+	switch cc.Deleters {
+	case "SY":
 		kind = "SyncMap"
+	case "OF":
+		kind = "ShardedMapOf"
 	}
 
 	var (
